@@ -126,6 +126,9 @@ std::string build_reply(const Frame &f, const J &st, int pid, std::string &desc)
         ares_dns_record_rr_add(&rr, rec, ARES_SECTION_ANSWER, owner.c_str(), ARES_REC_TYPE_AAAA, ARES_CLASS_IN, t_i);
         struct ares_in6_addr a6;
         marker_addr6(m, &a6);
+        // every other address under 2001:db8::/32 (policy label of ordinary global addresses; the plain markers are
+        // under 2001::/32, which RFC 6724 labels as Teredo)
+        if (st["alt6"].num() && (i & 1)) { a6._S6_un._S6_u8[2] = 0x0d; a6._S6_un._S6_u8[3] = 0xb8; }
         ares_dns_rr_set_addr6(rr, ARES_RR_AAAA_ADDR, &a6);
       } else if (qtype == ARES_REC_TYPE_PTR) {
         ares_dns_record_rr_add(&rr, rec, ARES_SECTION_ANSWER, owner.c_str(), ARES_REC_TYPE_PTR, ARES_CLASS_IN, t_i);
